@@ -164,10 +164,16 @@ func NewCW(e *Engine, o ClientOpts, certs *CertSet) *CW {
 }
 
 // CatchAll installs a route without matchers that records every packet.
+// CatchAll registers the routes of a typical application - a handler for two IQ namespaces, one
+// for chat messages - in front of a route that takes everything else; all of them record what they
+// get, so "some handler ran exactly once" is observed through the real matchers.
 func (w *CW) CatchAll() {
-	w.Router.NewRoute().HandlerFunc(func(s xmpp.Sender, p stanza.Packet) {
+	h := func(s xmpp.Sender, p stanza.Packet) {
 		w.recordPacket(s, p)
-	})
+	}
+	w.Router.NewRoute().IQNamespaces("jabber:iq:version", "http://jabber.org/protocol/disco#info").HandlerFunc(h)
+	w.Router.NewRoute().Packet("message").StanzaType("chat").HandlerFunc(h)
+	w.Router.NewRoute().HandlerFunc(h)
 }
 
 func (w *CW) recordPacket(s xmpp.Sender, p stanza.Packet) {
